@@ -33,4 +33,13 @@ bool deadlocked();
 bool diverged();
 void sched_point(const char* site);                   // called by the H3 hooks
 int requested_threads();
+int running_tid();                                      // id (0..team-1) of the thread that holds the baton in explore mode, -1 otherwise
+// lockset race detector (engine/vomp/lset.cpp), present only in the 'lset' build variants
+int lset_drain(char* buf, int cap) __attribute__((weak));
+long lset_accesses() __attribute__((weak));
+void lset_watch(const void* p, unsigned long n) __attribute__((weak));   // p == nullptr clears the list; with a non-empty list only conflicts on the listed bytes are reported
+long lset_unwatched_conflicts() __attribute__((weak));
+long lset_dropped() __attribute__((weak));
+namespace lset { void region_begin(int team) __attribute__((weak)); void region_end() __attribute__((weak)); void epoch() __attribute__((weak)); void thread_begin(int tid) __attribute__((weak));
+                 void lock(int tid, const void* l) __attribute__((weak)); void unlock(int tid, const void* l) __attribute__((weak)); void ignore(int d) __attribute__((weak)); }
 }
